@@ -1,6 +1,6 @@
 CONSTANTS
   G = {1, 2, 3}
-  URL = {"u", "v"}
+  URL = {"u"}
   MGR = {"m1", "m2"}
   CLIENT = {"c1", "c2"}
   URI = {"x"}
